@@ -127,6 +127,8 @@ pub fn stress_menu_b() -> Vec<String> {
         "def X : Y { int v = !cond(true: 1); let f = !cond(true: 2); bits<2> b = { 1, 0 }; bit c = b{0}; }",
         "defvar X = !filter(e, [1, 2], !gt(e, Y));",
         "multiclass X<int p = !cond(true: 1)> : Y<p> { defvar v = p; def _a : X; }",
+        // one let over two defs whose classes each declare the field, with an untyped value and with some bits only
+        "class P1 { bits<4> f = 0; } class P2 { bits<4> f = 0; } let f = !cond(true: 1) in { def X : P1; def Y : P2; } let f<0> = 1 in { def X1 : P2; def Y1 : P1; }",
     ];
     let mut out = Vec::new();
     for t in templates {
@@ -354,6 +356,17 @@ pub fn for_each_workspace(tier: Tier, ctx: &mut Ctx, mut f: impl FnMut(&mut Ctx,
             if !f(ctx, &WsCase::single(&text, "variant")) {
                 return;
             }
+        }
+    }
+    // 6a. a byte-order mark at the head of the file, followed at once by a comment with a 2-byte character
+    for (name, text) in &files.seeds {
+        if ctx.mine() && !f(ctx, &seed_workspace(&files, name, &format!("\u{feff}/*é*/{text}"), "variant")) {
+            return;
+        }
+    }
+    for a in 0..m {
+        if ctx.mine() && !f(ctx, &WsCase::single(&format!("\u{feff}/*é*/{} /*ü*/ def after : A;", menu[a]), "variant")) {
+            return;
         }
     }
     // 6b. every name followed by trivia: seeds and stress words of <= 2 statements, two fillers
